@@ -32,7 +32,8 @@ type c05Case struct {
 func (c *c05Case) defs() map[string]*ref.Expr {
 	m := map[string]*ref.Expr{}
 	for _, f := range c.Fields {
-		if f.As != "" {
+		if _, dup := m[f.As]; f.As != "" && !dup {
+			// a name refers to the first field that carries it
 			m[f.As] = f.E
 		}
 	}
@@ -224,6 +225,14 @@ func c05Shapes(ai int, a c05Alias) []c05Shape {
 	if a.ordable {
 		out = append(out, c05Shape{fields: base, where: w0, order: []string{a.name + " desc", "KEY asc"}, alias: ai})
 		out = append(out, c05Shape{fields: base, where: ref.Bl(true), order: []string{a.name + " asc", "KEY desc"}, alias: ai})
+	}
+	// a later field carrying the same name: the name keeps referring to the
+	// first one and the later column still shows its own expression
+	for _, w := range uses {
+		out = append(out, c05Shape{fields: []c05Field{{ref.Key(), ""}, {a.def, a.name}, {ref.Value(), a.name}, {ref.Call("upper", ref.Key()), a.name}}, where: w, alias: ai})
+	}
+	if a.ordable {
+		out = append(out, c05Shape{fields: []c05Field{{a.def, a.name}, {ref.Key(), a.name}}, where: ref.Bl(true), order: []string{a.name + " desc"}, alias: ai})
 	}
 	// second alias defined through the first
 	if len(a.later) > 0 {
